@@ -17,6 +17,7 @@ import common
 import tlacases
 from common import MachineryError, Verdict, write_evidence, STD_ASSUMPTIONS
 
+PARAMS = ("q", "alpha")
 EV_ATTACHED = -3.25
 EVERR_ATTACHED = 0.125
 
@@ -36,6 +37,7 @@ def build(init):
     if "lq" in init["fields"]:
         kw["log_q"] = 0.25 * i
     dt = "float32" if init["width"] == 32 else "float64"
+    kw["parameters"] = list(PARAMS)      # deliberately not in sorted order
     if init["cls"] == "Base":
         return BaseSamples(x, xp=xp, dtype=dt, **kw)
     if init["cls"] == "Samples":
@@ -115,6 +117,7 @@ def project(obj, ev0):
     xok = True
     if not oned:
         xok = bool(np.array_equal(x[:, 1], x[:, 0] + 0.5))
+    out["params_ok"] = list(obj.parameters) == list(PARAMS)
     for name, attr, inv in (("ll", "log_likelihood", lambda v: v / 10.0), ("lp", "log_prior", lambda v: -v),
                             ("lq", "log_q", lambda v: v * 4.0)):
         v = getattr(obj, attr)
@@ -197,6 +200,8 @@ def run_case(arg):
                 res["viol"].append((f"FieldsKept|{tag}", f"fields {got['fields']} != {sorted(exp['fields'])} after {label}"))
             if list(exp["rows"]) != got["rows"] or not got["aligned"]:
                 res["viol"].append((f"RowsAligned|{tag}", f"rows {got['rows']} aligned={got['aligned']} != model rows {list(exp['rows'])} after {label}"))
+            if not got["params_ok"]:
+                res["viol"].append((f"RowsAligned|parameters|{tag}", f"parameter names / order changed after {label}"))
             if not got["weights_ok"]:
                 res["viol"].append((f"RowsAligned|weights|{tag}", f"log_w / weights are not the selection of the original ones after {label}"))
             if exp["ev"] != "none" and got["ev"] != exp["ev"]:
